@@ -165,6 +165,31 @@ class Built:
     classes: list[type]
     index: dict[type, int]
     grammar: Grammar | None = None
+    tymap: list = field(default_factory=list)   # (typing object, spec type) for every field type component
+
+    def spec_ty(self, obj):
+        """spec type of a real type object met in this grammar (classes, base types, and the
+        generic / Annotated aliases that occur in field declarations)"""
+        if obj is int:
+            return "int"
+        if obj is float:
+            return "float"
+        if obj is str:
+            return "str"
+        if obj is bool:
+            return "bool"
+        if obj in self.index:
+            return ("cls", self.index[obj])
+        for o, t in self.tymap:
+            if o is obj:
+                return t
+        for o, t in self.tymap:
+            try:
+                if o == obj:
+                    return t
+            except Exception:  # noqa: BLE001
+                pass
+        raise ValueError(f"unknown type object {obj!r}")
 
     @property
     def start(self):
@@ -183,6 +208,7 @@ def build(spec: Spec) -> Built:
     so that fields may mention any class, including the class itself)."""
     uid = next(_counter)
     classes: list[type] = []
+    tymap: list = []
     mod = sys.modules[__name__]
     for i, c in enumerate(spec.classes):
         base = (ABC if c.abstract else object) if c.parent is None else classes[c.parent]
@@ -199,8 +225,25 @@ def build(spec: Spec) -> Built:
         cls = classes[i]
         names = [fn for fn, _ in c.fields]
         types = [py_type(ft, classes) for _, ft in c.fields]
+        for (_, ft), pt in zip(c.fields, types):
+            _collect_tymap(ft, pt, tymap)
         _install_init(cls, names, types)
-    return Built(spec, classes, {cls: i for i, cls in enumerate(classes)})
+    return Built(spec, classes, {cls: i for i, cls in enumerate(classes)}, tymap=tymap)
+
+
+def _collect_tymap(ft, pt, out):
+    """pair every component of a declared field type with the typing object built for it"""
+    if isinstance(ft, str) or ft[0] == "cls":
+        return
+    out.append((pt, ft))
+    k = ft[0]
+    if k == "list":
+        _collect_tymap(ft[1], pt.__args__[0], out)
+    elif k in ("tuple", "union"):
+        for sub, psub in zip(ft[1:], pt.__args__):
+            _collect_tymap(sub, psub, out)
+    elif k == "ann":
+        _collect_tymap(ft[1], pt.__args__[0], out)
 
 
 def _install_init(cls, names, types):
